@@ -119,7 +119,7 @@ def gen_cases(tier, seed):
         b = base64.b64encode(common.read_text(f)).decode('ascii')
         # split options across cases so the pool balances
         for i in range(0, len(SIZE_OPTIONS), 5):
-            cases.append({'file': f, 'src_b64': b, 'options': SIZE_OPTIONS[i:i + 5]})
+            cases.append({'file': f, 'src_b64': b, 'options': SIZE_OPTIONS[i:i + 5], 'timeout': 110})
     return cases
 
 
